@@ -14,6 +14,9 @@
 //!                     spacing 1 ms … 2^17 s, emulated steering feedback, clock meddling); observed after
 //!                     every op: snapshot (bit patterns), desired poll, `observe()`.
 //!                     Oracle (C06): estimates finite, variance >= 0, `from_seconds` never fed NaN/inf.
+//!                     Every oracle failure carries `cause=psd_lost|innovation_vanished|none`, the root cause
+//!                     evaluated on the implementation's own filter state (see `cov_indefinite`,
+//!                     `pre_cause_meas`); known findings are matched by {clause, cause}.
 #![allow(clippy::all, clippy::pedantic)]
 
 #[path = "../common/mod.rs"]
@@ -563,6 +566,19 @@ fn gen_filter_case(rng: &mut Rng, idx: u64, run: &Run) -> Vec<String> {
     if idx == 0 {
         return WITNESS_F_C06.iter().map(|s| s.to_string()).collect();
     }
+    if idx == 1 {
+        // F-C06c witness (thorough tier, seed 1 case 6, reduced): identical measurements (offset 0, delay 0)
+        // every 63 ms with precision-hysteresis 1: every measurement equals the prediction, the wander
+        // estimate is quartered on every update until the predicted variance underflows; with the noise
+        // estimate exactly 0 the innovation variance S becomes subnormal, 1/S = inf, the state NaN.
+        let mut ops = vec!["fcfg min=9 max=9 init=9 plow=3fd5555555555555 phigh=3fe5555555555555 physt=1 pminw=3fb999999999999a wlow=3fd999999999999a whigh=3fe3333333333333 whyst=1 wthr=3eb0c6f7a0b5ed8d outl=4014000000000000 iw=3d719799812dea11 ifu=3f50624dd2f1a9fc medd=21474836480 inq=1".to_string()];
+        let mut lt: u64 = 1885209537190747541;
+        for _ in 0..540 {
+            lt += 270582939; // 63 ms in 2^-32 s
+            ops.push(format!("meas mono=63000000 lt={} off=0 delay=0 rdelay=1000 rdisp=1000", lt));
+        }
+        return ops;
+    }
     let mut ops = vec![];
     // --- configuration
     let default_cfg = rng.chance(2, 3);
@@ -589,8 +605,8 @@ fn gen_filter_case(rng: &mut Rng, idx: u64, run: &Run) -> Vec<String> {
     ));
     // --- scenario
     let scenario = match idx {
-        1 => 1, // identical offsets and delays (design-time adversarial case) always first
-        2 => 2, // huge offsets
+        2 => 1, // identical offsets and delays (design-time adversarial case) always first
+        3 => 2, // huge offsets
         _ => rng.below(8),
     };
     let n = if run.tier_thorough { rng.usize(20, 2000) } else { rng.usize(10, 260) };
@@ -712,10 +728,99 @@ fn gen_filter_case(rng: &mut Rng, idx: u64, run: &Run) -> Vec<String> {
     ops
 }
 
+/// ---- root-cause classification for the finiteness oracle (known findings are registered BY CAUSE) ----
+/// Evaluated on the implementation's own filter state, never through the Lean model.
+///
+/// `psd_lost`            the 2x2 covariance of the stable filter is indefinite: a negative diagonal entry
+///                       or a strictly negative determinant (as computed in f64), before or after the op.
+///                       In exact arithmetic this cannot happen (C06.history_keeps_psd); it is the
+///                       rounding of `(I - K H) P` in `absorb_measurement`, typically when the noise
+///                       estimate is exactly 0 so that K0 rounds to 1.
+/// `innovation_vanished` the innovation variance S = P00(predicted) + R the next `absorb_measurement`
+///                       will divide by is zero or so small that 1/S is not finite (R exactly 0 and the
+///                       wander estimate quartered until P00 underflows).  In exact arithmetic S > 0
+///                       (C06.innovation_variance_positive).
+/// `none`                neither: a failure with this attribute is a NEW violation.
+fn cov_indefinite(k: &KalmanState) -> bool {
+    let (a, b, c) = (k.uncertainty.entry(0, 0), k.uncertainty.entry(0, 1), k.uncertainty.entry(1, 1));
+    let b2 = k.uncertainty.entry(1, 0);
+    if !(a.is_finite() && b.is_finite() && b2.is_finite() && c.is_finite()) {
+        return false;
+    }
+    a < 0.0 || c < 0.0 || a * c - b * b2 < 0.0
+}
+
+fn cov_finite(k: &KalmanState) -> bool {
+    (0..2).all(|i| (0..2).all(|j| k.uncertainty.entry(i, j).is_finite()))
+}
+
+/// cause visible BEFORE a measurement is handed to the controller
+fn pre_cause_meas(
+    ctrl: &KalmanSourceController<NtpDuration, AveragingBuffer>,
+    m: &InternalMeasurement<NtpDuration>,
+) -> &'static str {
+    match &ctrl.state.0 {
+        SourceStateInner::Stable(f) => {
+            if cov_indefinite(&f.state) {
+                return "psd_lost";
+            }
+            if !cov_finite(&f.state) {
+                return "none";
+            }
+            // what `SourceFilter::update` is about to compute (pure re-computation on copies)
+            let pred = f.state.progress_time(m.localtime, f.clock_wander, None);
+            let mut ne = f.noise_estimator.clone();
+            let delay = MeasurementNoiseEstimator::preprocess(&ne, m.delay);
+            MeasurementNoiseEstimator::update(&mut ne, delay);
+            let s = pred.uncertainty.entry(0, 0) + ne.get_noise_estimate();
+            if cov_indefinite(&pred) {
+                "psd_lost"
+            } else if s.is_finite() && (!(s > 0.0) || !(1.0 / s).is_finite()) {
+                "innovation_vanished"
+            } else {
+                "none"
+            }
+        }
+        SourceStateInner::Initial(_) => "none",
+    }
+}
+
+fn pre_cause_msg(ctrl: &KalmanSourceController<NtpDuration, AveragingBuffer>) -> &'static str {
+    match &ctrl.state.0 {
+        SourceStateInner::Stable(f) if cov_indefinite(&f.state) => "psd_lost",
+        _ => "none",
+    }
+}
+
+/// cause to attach to failures reported after the op, and the new sticky value (a NaN state keeps the
+/// cause that produced it; a finite state is judged on its own)
+fn post_cause(
+    ctrl: &KalmanSourceController<NtpDuration, AveragingBuffer>,
+    pre: &'static str,
+    sticky: &mut &'static str,
+) -> &'static str {
+    let (indefinite, finite) = match &ctrl.state.0 {
+        SourceStateInner::Stable(f) => (cov_indefinite(&f.state), cov_finite(&f.state) && f.state.state.ventry(0).is_finite() && f.state.state.ventry(1).is_finite()),
+        SourceStateInner::Initial(_) => (false, true),
+    };
+    let cause = if pre != "none" {
+        pre
+    } else if indefinite {
+        "psd_lost"
+    } else if !finite {
+        *sticky
+    } else {
+        "none"
+    };
+    *sticky = if !finite { cause } else if indefinite { "psd_lost" } else { "none" };
+    cause
+}
+
 fn snapshot_line(
     ctrl: &KalmanSourceController<NtpDuration, AveragingBuffer>,
     run: &mut Run,
     in_q: bool,
+    cause: &str,
 ) -> String {
     let snap = ctrl.state.snapshot(ctrl.index, &ctrl.algo_config, ctrl.period);
     let poll = ctrl.desired_poll_interval().as_log();
@@ -760,7 +865,7 @@ fn snapshot_line(
                 .map(|(_, n)| *n)
                 .collect();
                 for p in problems {
-                    run.oracle_fail("estimates_finite", &format!("what={} noise_zero={}", p, r0), &format!("snapshot {}", s));
+                    run.oracle_fail("estimates_finite", &format!("what={} cause={} noise_zero={}", p, cause, r0), &format!("snapshot {}", s));
                 }
                 // not one of the outputs the property lists, but ill-formed: recorded in the histogram
                 if !(fvar >= 0.0) || !fvar.is_finite() {
@@ -775,7 +880,7 @@ fn snapshot_line(
             if snap.is_some() {
                 s.push_str(&format!(" obs={},{},{}", dur_i64(o.offset), dur_i64(o.uncertainty), dur_i64(o.delay)));
                 if in_q && dur_i64(o.uncertainty) < 0 {
-                    run.oracle_fail("estimates_finite", &format!("what=observed_uncertainty_negative noise_zero={}", r0), &s);
+                    run.oracle_fail("estimates_finite", &format!("what=observed_uncertainty_negative cause={} noise_zero={}", cause, r0), &s);
                 }
             } else {
                 s.push_str(" obs=-");
@@ -785,7 +890,7 @@ fn snapshot_line(
             // `NtpDuration::from_seconds` was handed NaN or an infinity
             s.push_str(" obs=panic");
             if in_q {
-                run.oracle_fail("from_seconds_fed_nonfinite", &format!("what=observe noise_zero={}", r0), &format!("{} | {}", s, common::last_panic()));
+                run.oracle_fail("from_seconds_fed_nonfinite", &format!("what=observe cause={} noise_zero={}", cause, r0), &format!("{} | {}", s, common::last_panic()));
             }
             run.hit("observe-panic");
         }
@@ -812,6 +917,7 @@ fn exec_filter_case(ops: &[String], run: &mut Run) {
         let mut in_q = false;
         let mut key = String::new();
         let mut stable_updates = 0u32;
+        let mut sticky: &'static str = "none";
         for op in ops {
             run.begin_op(op);
             let w: Vec<&str> = op.split_whitespace().collect();
@@ -842,6 +948,7 @@ fn exec_filter_case(ops: &[String], run: &mut Run) {
                         source_config,
                         AveragingBuffer::default(),
                     );
+                    sticky = "none";
                     run.hit(if in_q { "history-in-quantifier" } else { "history-outside-quantifier" });
                     run.end_op("ok");
                 }
@@ -857,7 +964,12 @@ fn exec_filter_case(ops: &[String], run: &mut Run) {
                         leap: NtpLeapIndicator::NoWarning,
                         precision: 0,
                     };
+                    let pre = pre_cause_meas(&ctrl, &m);
                     let msg = ctrl.handle_measurement(m);
+                    let cause = post_cause(&ctrl, pre, &mut sticky);
+                    if cause != "none" {
+                        run.hit(if cause == "psd_lost" { "CAUSE-psd_lost(op)" } else { "CAUSE-innovation_vanished(op)" });
+                    }
                     let is_stable = matches!(ctrl.state.0, SourceStateInner::Stable(_));
                     match (was_stable, is_stable, msg.is_some()) {
                         (false, true, _) => run.hit("promoted-to-stable"),
@@ -870,25 +982,29 @@ fn exec_filter_case(ops: &[String], run: &mut Run) {
                         _ => run.hit("initial"),
                     }
                     key.push(if msg.is_some() { 'm' } else { 'i' });
-                    let line = snapshot_line(&ctrl, run, in_q);
+                    let line = snapshot_line(&ctrl, run, in_q, cause);
                     run.end_op(&format!("msg={} {}", msg.is_some() as u8, line));
                 }
                 "step" => {
+                    let pre = pre_cause_msg(&ctrl);
                     ctrl.handle_message(KalmanControllerMessage {
                         inner: KalmanControllerMessageInner::Step { steer: fx(&w, "s") },
                     });
+                    let cause = post_cause(&ctrl, pre, &mut sticky);
                     run.hit("step");
                     key.push('s');
-                    let line = snapshot_line(&ctrl, run, in_q);
+                    let line = snapshot_line(&ctrl, run, in_q, cause);
                     run.end_op(&line);
                 }
                 "freq" => {
+                    let pre = pre_cause_msg(&ctrl);
                     ctrl.handle_message(KalmanControllerMessage {
                         inner: KalmanControllerMessageInner::FreqChange { steer: fx(&w, "s"), time: ts(ux(&w, "t")) },
                     });
+                    let cause = post_cause(&ctrl, pre, &mut sticky);
                     run.hit("freq");
                     key.push('f');
-                    let line = snapshot_line(&ctrl, run, in_q);
+                    let line = snapshot_line(&ctrl, run, in_q, cause);
                     run.end_op(&line);
                 }
                 _ => run.end_op("bad-op"),
